@@ -341,6 +341,21 @@ func realHeaders(cfg Config, f fam) []Member {
 	return out
 }
 
+// coreConfig: family B runs under the configurations built from the core
+// secrets (the quick tier's: u:p, u:"", u2:pp; t, tt, ""); the exotic secrets
+// of the thorough tier vary the header dimension, which family A covers.
+func coreConfig(c Config) bool {
+	core := family(false)
+	okB, okT := !c.HasBasic, !c.HasToken
+	for _, b := range core.basics {
+		okB = okB || (c.HasBasic && b.User == c.User && b.Pass == c.Pass)
+	}
+	for _, t := range core.tokens {
+		okT = okT || (c.HasToken && t == c.Token)
+	}
+	return okB && okT
+}
+
 func cfgLabel(c Config) string {
 	if c.BasePath != "" {
 		return c.Kind + "+base"
@@ -351,8 +366,71 @@ func cfgLabel(c Config) string {
 // sigClass: the path class as it appears in signatures.
 func sigClass(class string) string { return strings.ReplaceAll(class, ":", "-") }
 
-// checkReal applies the oracle to one member of family B.
-func (c *checker) checkReal(rs *realServer, m Member, r resolution, o realOutcome) {
+// verdict is the oracle's answer for one member of family B.
+type verdict struct {
+	Kind     string // "" = fine; bypass | valid-refused | not-401 | refused-without-auth-configured | panic
+	Cred     string
+	Class    class
+	Resolves bool
+	Reached  bool
+	Skip     string // the member was not judged (parse / network error)
+}
+
+// judgeReal is the oracle of family B.
+func judgeReal(m Member, r resolution, o realOutcome) verdict {
+	var v verdict
+	if o.NetErr != "" {
+		v.Skip = "net"
+		return v
+	}
+	if o.ParseErr != "" {
+		v.Skip = "parse"
+		return v
+	}
+	seen := m
+	seen.Auth = o.Auth // what the server's parser made of the header bytes
+	v.Class = classify(seen, o.URLPath, o.RawPath)
+	cl := v.Class
+	authOn := m.Cfg.HasBasic || m.Cfg.HasToken
+	carries := cl.CarriesBasic || cl.CarriesToken
+	v.Cred = credClassOf(m, cl)
+	v.Reached = len(o.Ops) > 0 || (m.Method == http.MethodOptions && o.CORS && r.Any)
+	v.Resolves = r.resolves(m.Method)
+	switch {
+	case o.Panic != nil:
+		v.Kind = "panic"
+	case !authOn:
+		// no auth configured: every request passes — the header must not matter
+		if v.Resolves && !v.Reached {
+			v.Kind = "refused-without-auth-configured"
+		}
+	case !carries && v.Reached:
+		// (1) without a configured secret no operation is dispatched — whatever the spelling
+		v.Kind = "bypass"
+	case cl.Standard != "" && v.Resolves && !v.Reached:
+		// (2) standard-form credentials reach every operation the router resolves the spelling to
+		v.Kind, v.Cred = "valid-refused", "standard-"+cl.Standard
+	case !carries && v.Resolves && o.Code != http.StatusUnauthorized:
+		// (3) a spelling the router resolves to an operation, presented without a secret, is answered 401
+		v.Kind = "not-401"
+	}
+	return v
+}
+
+func plainKey(route, method string, auth []string) string {
+	h := "\x00absent"
+	if auth != nil {
+		h = strings.Join(auth, "\x01")
+	}
+	return route + "\x02" + method + "\x02" + h
+}
+
+// checkReal applies the oracle to one member of family B and reports.
+// plain: verdict kinds of the plain spelling of the same route under the same
+// configuration, method and header — a violation that the plain spelling shows
+// as well is not a matter of the spelling and is reported under
+// path-class=plain.
+func (c *checker) checkReal(m Member, r resolution, o realOutcome, plain map[string]string) {
 	res := c.res
 	res.Evaluations++
 	res.Count("B:evaluations", 1)
@@ -360,79 +438,92 @@ func (c *checker) checkReal(rs *realServer, m Member, r resolution, o realOutcom
 	if m.Via == "tcp" {
 		res.Count("B:over-tcp", 1)
 	}
-	if o.NetErr != "" {
+	v := judgeReal(m, r, o)
+	switch v.Skip {
+	case "net":
 		res.CheckError("B: %s: network error talking to the harness's own server: %s", m, o.NetErr)
 		return
-	}
-	if o.ParseErr != "" {
+	case "parse":
 		res.Count("B:refused-by-net/http-request-parser", 1)
 		return
 	}
-	seen := m
-	seen.Auth = o.Auth
-	cl := classify(seen, o.URLPath, o.RawPath)
+	cl := v.Class
 	authOn := m.Cfg.HasBasic || m.Cfg.HasToken
-	carries := cl.CarriesBasic || cl.CarriesToken
-	credClass := credClassOf(m, cl)
-	reached := len(o.Ops) > 0 || (m.Method == http.MethodOptions && o.CORS && r.Any)
-	resolves := r.resolves(m.Method)
-	if resolves {
+	if v.Resolves {
 		res.Count("B:resolved-to-an-operation:"+m.PathClass, 1)
 	}
-	if authOn && m.PathClass != "plain" && resolves {
+	if authOn && m.PathClass != "plain" && v.Resolves {
 		res.Nontrivial(vlib.Hash("B", m.Cfg.String(), m.Method, m.Target, strings.Join(m.Auth, "\x01")))
 	}
-	desc := func() string {
-		return fmt.Sprintf("%s [%s, path class %s %s, route %s] -> status %d, operations dispatched %v, cors-answer=%v; same target with no auth configured: dispatches %v (any=%v); reference: carriesBasic=%v carriesToken=%v standard=%q; server saw URL.Path=%q RawPath=%q Authorization=%q",
-			m, m.Via, m.PathClass, m.Variant, m.Route, o.Code, o.Ops, o.CORS, r.Op, r.Any, cl.CarriesBasic, cl.CarriesToken, cl.Standard, o.URLPath, o.RawPath, o.Auth)
-	}
-	violate := func(kind, cred string) {
-		s := fmt.Sprintf("C17/%s/cfg=%s/path-class=%s/cred=%s", kind, cfgLabel(m.Cfg), sigClass(m.PathClass), cred)
-		if c.vio[s] {
-			res.Count("vio:"+s, 1)
-			return
+	if authOn {
+		switch {
+		case cl.Standard != "":
+			res.Count("B:class:standard-form-correct", 1)
+		case cl.CarriesBasic || cl.CarriesToken:
+			res.Count("B:class:dont-care(non-standard presentation of a correct secret)", 1)
+		default:
+			res.Count("B:class:no-secret-presented", 1)
 		}
-		c.vio[s] = true
-		res.Violate(s, desc(), m)
 	}
-	if k := "B:" + m.PathClass; !c.sampled[k] && authOn && resolves && m.PathClass != "plain" && len(res.Samples) < 5 && strings.HasPrefix(m.PathClass, "dotdot-out-of-") && m.Auth == nil {
+	if k := "B:" + m.PathClass; !c.sampled[k] && authOn && v.Resolves && len(res.Samples) < 5 && strings.HasPrefix(m.PathClass, "dotdot-out-of-") && m.Auth == nil {
 		c.sampled[k] = true
 		res.Sample(map[string]any{"family": "B (real assembled server)", "member": m.String(), "path_class": m.PathClass, "status": o.Code,
 			"operations_dispatched": o.Ops, "dispatches_with_no_auth_configured": r.Op[m.Method]})
 	}
-	if o.Panic != nil {
-		violate("panic", credClass)
+	if v.Kind == "" {
 		return
 	}
-	if !authOn {
-		// no auth configured: every request passes — the header must not matter
-		if resolves && !reached {
-			violate("refused-without-auth-configured", credClass)
+	pc, note := sigClass(m.PathClass), ""
+	// the route the spelling actually lands on (it need not be the one it was derived from)
+	ref := m.Route
+	op := r.Op[m.Method]
+	if len(o.Ops) > 0 {
+		op = o.Ops[0]
+	}
+	if op == "" {
+		var ks []string
+		for k := range r.Op {
+			ks = append(ks, k)
 		}
+		sort.Strings(ks)
+		if len(ks) > 0 {
+			op = r.Op[ks[0]]
+		}
+	}
+	if t, ok := c.routeOfOp[op]; ok {
+		ref = t
+	}
+	if m.PathClass != "plain" && plain[plainKey(ref, m.Method, m.Auth)] == v.Kind {
+		pc, note = "plain", " (the plain spelling of the route shows the same violation: reported under path-class=plain)"
+	}
+	sig := fmt.Sprintf("C17/%s/cfg=%s/path-class=%s/cred=%s", v.Kind, cfgLabel(m.Cfg), pc, v.Cred)
+	if c.vio[sig] {
+		res.Count("vio:"+sig, 1)
 		return
 	}
-	switch {
-	case cl.Standard != "":
-		res.Count("B:class:standard-form-correct", 1)
-	case carries:
-		res.Count("B:class:dont-care(non-standard presentation of a correct secret)", 1)
-	default:
-		res.Count("B:class:no-secret-presented", 1)
+	c.vio[sig] = true
+	res.Violate(sig, fmt.Sprintf("%s [%s, path class %s %s, route %s]%s -> status %d, operations dispatched %v, cors-answer=%v, panic=%v; same target with no auth configured: dispatches %v (any=%v); reference: carriesBasic=%v carriesToken=%v standard=%q; server saw URL.Path=%q RawPath=%q Authorization=%q",
+		m, m.Via, m.PathClass, m.Variant, m.Route, note, o.Code, o.Ops, o.CORS, o.Panic, r.Op, r.Any, cl.CarriesBasic, cl.CarriesToken, cl.Standard, o.URLPath, o.RawPath, o.Auth), m)
+}
+
+// plainVerdicts: the verdict kinds of the plain spellings of all routes under
+// the running configuration (reference for checkReal; not counted as members —
+// the plain spellings are members of the family in their own right).
+func plainVerdicts(rs *realServer, si *specInfo, rplain map[string]resolution, methods []string, hdrs []Member) map[string]string {
+	out := map[string]string{}
+	for _, rt := range si.Routes {
+		target := strings.TrimRight(rs.cfg.BasePath, "/") + join(cat(si.BaseSegs, rt.Segs)) + rt.Query
+		for _, method := range methods {
+			for _, h := range hdrs {
+				m := h
+				m.Cfg, m.Method, m.Target = rs.cfg, method, target
+				if v := judgeReal(m, rplain[rt.Template], rs.direct(m)); v.Kind != "" {
+					out[plainKey(rt.Template, method, h.Auth)] = v.Kind
+				}
+			}
+		}
 	}
-	// (1) without a configured secret no operation is dispatched — whatever the spelling
-	if !carries && reached {
-		violate("bypass", credClass)
-		return
-	}
-	// (2) standard-form credentials reach every operation the router resolves the spelling to
-	if cl.Standard != "" && resolves && !reached {
-		violate("valid-refused", "standard-"+cl.Standard)
-		return
-	}
-	// (3) a spelling the router resolves to an operation, presented without a secret, is answered 401
-	if !carries && resolves && o.Code != http.StatusUnauthorized {
-		violate("not-401", credClass)
-	}
+	return out
 }
 
 // runReal enumerates family B for this shard.  Blocks are (base path, target);
@@ -444,6 +535,7 @@ func (c *checker) runReal(f fam, block *int) {
 		res.CheckError("B: cannot analyse the embedded spec: %v", err)
 		return
 	}
+	c.setRoutes(si)
 	env := venv.New(filepath.Join(fl.Work, "inst"))
 	var nTargets, nResolved, nHeaders int64
 	classes := map[string]bool{}
@@ -463,7 +555,7 @@ func (c *checker) runReal(f fam, block *int) {
 		}
 		var cfgs []Config
 		for _, cfg := range f.configs {
-			if cfg.BasePath == base {
+			if cfg.BasePath == base && coreConfig(cfg) {
 				cfgs = append(cfgs, cfg)
 			}
 		}
@@ -472,6 +564,7 @@ func (c *checker) runReal(f fam, block *int) {
 			return
 		}
 		R := make([]resolution, len(mine))
+		rplain := map[string]resolution{}
 		tcpCfg := map[int]bool{0: true}
 		for i, cfg := range cfgs {
 			if cfg.Kind == "both" {
@@ -495,13 +588,16 @@ func (c *checker) runReal(f fam, block *int) {
 					_ = rs.stop()
 					return
 				}
+				for _, rt := range si.Routes {
+					rplain[rt.Template] = rs.resolve(f.methods, strings.TrimRight(base, "/")+join(cat(si.BaseSegs, rt.Segs))+rt.Query, si)
+				}
 				for i, s := range mine {
 					R[i] = rs.resolve(f.methods, s.Target, si)
 					if R[i].Any {
 						nResolved++
 					}
 					// the plain spelling of a route must dispatch the spec's operation for each of its methods
-					if s.Class == "plain" {
+					if s.Class == "plain" && base == strings.TrimRight(base, "/") {
 						for _, rt := range si.Routes {
 							if rt.Template != s.Route {
 								continue
@@ -515,6 +611,7 @@ func (c *checker) runReal(f fam, block *int) {
 					}
 				}
 			}
+			plain := plainVerdicts(rs, si, rplain, f.methods, hdrs)
 			for i, s := range mine {
 				for _, method := range f.methods {
 					for _, h := range hdrs {
@@ -522,12 +619,12 @@ func (c *checker) runReal(f fam, block *int) {
 						m.Cfg, m.Method, m.Target = cfg, method, s.Target
 						m.Family, m.PathClass, m.Variant, m.Route, m.Via = "real", s.Class, s.Variant, s.Route, "direct"
 						od := rs.direct(m)
-						c.checkReal(rs, m, R[i], od)
+						c.checkReal(m, R[i], od, plain)
 						// sub-family over the wire: no header, and the first header of the list that is in standard form
 						if tcpCfg[ci] && (h.Auth == nil || (h.CredKind == "basic-right" && h.Scheme == "Basic")) {
 							m.Via = "tcp"
 							ot := rs.tcp(m)
-							c.checkReal(rs, m, R[i], ot)
+							c.checkReal(m, R[i], ot, plain)
 							if ot.NetErr == "" && (ot.Code != od.Code || strings.Join(ot.Ops, ",") != strings.Join(od.Ops, ",")) {
 								res.Count("B:tcp-differs-from-direct", 1)
 								res.CheckError("B: %s: over TCP status %d ops %v, handed to the handler directly status %d ops %v (parse error %q)", m, ot.Code, ot.Ops, od.Code, od.Ops, od.ParseErr)
@@ -552,6 +649,15 @@ func (c *checker) runReal(f fam, block *int) {
 	sort.Strings(cs)
 	res.Bounds["B:path-classes"] = len(cs)
 	res.Count("B:targets-that-resolve-to-an-operation(no auth configured)", nResolved)
+}
+
+func (c *checker) setRoutes(si *specInfo) {
+	c.routeOfOp = map[string]string{}
+	for _, rt := range si.Routes {
+		for _, id := range rt.Ops {
+			c.routeOfOp[id] = rt.Template
+		}
+	}
 }
 
 func routeNames(si *specInfo) []string {
@@ -600,6 +706,7 @@ func (c *checker) replayReal(m Member, f fam) {
 		res.CheckError("B: cannot analyse the embedded spec: %v", err)
 		return
 	}
+	c.setRoutes(si)
 	env := venv.New(filepath.Join(c.fl.Work, "inst"))
 	none := Config{Kind: "none", BasePath: m.Cfg.BasePath}
 	rs, err := startReal(none, env, si)
@@ -608,6 +715,10 @@ func (c *checker) replayReal(m Member, f fam) {
 		return
 	}
 	r := rs.resolve(f.methods, m.Target, si)
+	rplain := map[string]resolution{}
+	for _, rt := range si.Routes {
+		rplain[rt.Template] = rs.resolve(f.methods, strings.TrimRight(m.Cfg.BasePath, "/")+join(cat(si.BaseSegs, rt.Segs))+rt.Query, si)
+	}
 	_ = rs.stop()
 	rs, err = startReal(m.Cfg, env, si)
 	if err != nil {
@@ -620,7 +731,8 @@ func (c *checker) replayReal(m Member, f fam) {
 	} else {
 		o = rs.direct(m)
 	}
-	c.checkReal(rs, m, r, o)
+	h := m
+	c.checkReal(m, r, o, plainVerdicts(rs, si, rplain, []string{m.Method}, []Member{h}))
 	_ = rs.stop()
 	fmt.Fprintf(os.Stderr, "replayed %s [%s]\n  -> status %d ops=%v cors=%v panic=%v; with no auth configured the target dispatches %v\n", m, m.Via, o.Code, o.Ops, o.CORS, o.Panic, r.Op)
 }
